@@ -173,10 +173,140 @@ func regexPatternsOf(v ssa.Value) []string {
 			}
 		case *ssa.Extract:
 			walk(x.Tuple)
+		case *ssa.UnOp:
+			if x.Op == token.MUL {
+				walk(x.X)
+			}
 		}
 	}
 	walk(v)
 	return out
+}
+
+// ---------------------------------------------------------------------------
+// R-REGEX-DOTALL-NESTED (C16): a pattern that is applied to text CAPTURED by another pattern must
+// be able to see everything that capture can hold.  The block pattern captures a conditional's
+// body with (?s)(.*?) — any characters, newlines included; the pattern that then splits that body
+// at {{else}} must be dot-all too.  If its `.` excludes newlines, `^(.*?)\{\{else\}\}(.*)$` simply
+// fails on every multi-line body and the else branch is never separated.  Decided on the
+// regexp/syntax trees of the two constant patterns and the data flow from the submatch to the
+// second call.
+// ---------------------------------------------------------------------------
+
+func groupCanHoldNewline(re *syntax.Regexp, k int) (bool, bool) {
+	var find func(r *syntax.Regexp) *syntax.Regexp
+	find = func(r *syntax.Regexp) *syntax.Regexp {
+		if r.Op == syntax.OpCapture && r.Cap == k {
+			return r
+		}
+		for _, s := range r.Sub {
+			if g := find(s); g != nil {
+				return g
+			}
+		}
+		return nil
+	}
+	g := find(re)
+	if g == nil {
+		return false, false
+	}
+	nl := false
+	var walk func(r *syntax.Regexp)
+	walk = func(r *syntax.Regexp) {
+		switch r.Op {
+		case syntax.OpAnyChar:
+			nl = true
+		case syntax.OpCharClass:
+			for i := 0; i+1 < len(r.Rune); i += 2 {
+				if r.Rune[i] <= '\n' && '\n' <= r.Rune[i+1] {
+					nl = true
+				}
+			}
+		case syntax.OpLiteral:
+			for _, c := range r.Rune {
+				if c == '\n' {
+					nl = true
+				}
+			}
+		}
+		for _, s := range r.Sub {
+			walk(s)
+		}
+	}
+	walk(g)
+	return nl, true
+}
+
+func hasRepeatedNoNLDot(re *syntax.Regexp) bool {
+	found := false
+	var walk func(r *syntax.Regexp, rep bool)
+	walk = func(r *syntax.Regexp, rep bool) {
+		switch r.Op {
+		case syntax.OpStar, syntax.OpPlus, syntax.OpRepeat:
+			rep = true
+		case syntax.OpAnyCharNotNL:
+			if rep {
+				found = true
+			}
+		}
+		for _, s := range r.Sub {
+			walk(s, rep)
+		}
+	}
+	walk(re, false)
+	return found
+}
+
+func ruleRegexDotallNested(r *Run) {
+	p := r.P
+	n := 0
+	for _, fn := range p.ModFuncs() {
+		allInstrs(fn, func(in ssa.Instruction) {
+			c2, ok := in.(*ssa.Call)
+			if !ok || !strings.HasPrefix(calleeName(c2), "(*regexp.Regexp).") || len(c2.Call.Args) < 2 {
+				return
+			}
+			// the subject string: element k of the submatch slice of another call
+			subj := stripConv(c2.Call.Args[1])
+			ld, ok := subj.(*ssa.UnOp)
+			if !ok || ld.Op != token.MUL {
+				return
+			}
+			ia, ok := ld.X.(*ssa.IndexAddr)
+			if !ok {
+				return
+			}
+			k, isC := constInt(ia.Index)
+			if !isC {
+				return
+			}
+			c1, ok := ia.X.(*ssa.Call)
+			if !ok || !strings.Contains(calleeName(c1), "Submatch") {
+				return
+			}
+			for _, p1 := range regexPatternsOf(c1.Call.Args[0]) {
+				re1, err := syntax.Parse(p1, syntax.Perl)
+				if err != nil {
+					continue
+				}
+				nl, found := groupCanHoldNewline(re1, int(k))
+				if !found || !nl {
+					continue
+				}
+				for _, p2 := range regexPatternsOf(c2.Call.Args[0]) {
+					re2, err := syntax.Parse(p2, syntax.Perl)
+					if err != nil {
+						continue
+					}
+					n++
+					bad := hasRepeatedNoNLDot(re2)
+					r.Check("regex-dotall-nested", fmt.Sprintf("%s:%s", shortName(topLevel(fn)), p2), c2.Pos(), !bad,
+						fmt.Sprintf("%s applies `%s` to capture group %d of `%s`; that group can hold newlines, but `.` in the second pattern does not match a newline (no (?s)): on a multi-line body the pattern does not match at all and the body is not split (both branches of an if/else are emitted, or none)", shortName(topLevel(fn)), p2, k, p1))
+				}
+			}
+		})
+	}
+	r.Count("patterns_applied_to_captures", n) // no minimum: splitting with strings.Index instead of a second pattern is just as good
 }
 
 func ruleRegexLazy(r *Run) {
@@ -362,18 +492,72 @@ func rulePassOrder(r *Run) {
 		if !passes[i].inserts {
 			continue
 		}
-		var later []string
+		clean := true
 		for j := range passes {
 			if i == j || !passes[j].interp {
 				continue
 			}
 			if len(passes[j].call.Call.Args) > 1 && consumes(j, i) {
-				later = append(later, passes[j].callee.Name())
+				clean = false
+				// one obligation per (inserting pass, later interpreting pass) pair: a new pair — the
+				// passes re-ordered — is a new violation even where other pairs are known findings
+				r.Check("pass-order", passRole(p, passes[i].callee)+">"+passRole(p, passes[j].callee), passes[j].call.Pos(), false,
+					fmt.Sprintf("%s inserts data values into the working text, which is then re-scanned by the directive-interpreting pass %s: a value that contains template syntax (e.g. \"{{#if x}}\" or \"{{name}}\") is interpreted instead of being inserted verbatim", passes[i].callee.Name(), passes[j].callee.Name()))
 			}
 		}
-		r.Check("pass-order", passes[i].callee.Name(), passes[i].call.Pos(), len(later) == 0,
-			fmt.Sprintf("%s inserts data values into the working text, which is then re-scanned by the directive-interpreting pass(es) %v: a value that contains template syntax (e.g. \"{{#if x}}\" or \"{{name}}\") is interpreted instead of being inserted verbatim", passes[i].callee.Name(), later))
+		if clean {
+			r.Check("pass-order", passRole(p, passes[i].callee), passes[i].call.Pos(), true, passes[i].callee.Name()+" inserts data values; no directive-interpreting pass consumes its output")
+		}
 	}
+}
+
+// passRole names a render pass by the directive syntax it interprets (constant patterns / needles in
+// its own body and the literals it creates), so that obligations do not depend on function names:
+// loops ({{#each), images ({{#image), conditionals ({{#if), blocks ({{#block), variables ({{name}}).
+func passRole(p *Program, fn *ssa.Function) string {
+	has := map[string]bool{}
+	fs := append([]*ssa.Function{}, withClosures(fn)...)
+	for g := range p.staticReach(fn) {
+		fs = append(fs, g)
+	}
+	for _, f := range fs {
+		allInstrs(f, func(in ssa.Instruction) {
+			c, ok := in.(*ssa.Call)
+			if !ok {
+				return
+			}
+			var lits []string
+			for _, a := range c.Call.Args {
+				if s, ok := constString(a); ok {
+					lits = append(lits, s)
+				}
+			}
+			for _, pat := range regexPatternsOf(c.Call.Value) {
+				lits = append(lits, pat)
+			}
+			if len(c.Call.Args) > 0 {
+				lits = append(lits, regexPatternsOf(c.Call.Args[0])...)
+			}
+			for _, s := range lits {
+				for _, k := range []string{"#each", "#image", "#if", "#block"} {
+					if strings.Contains(s, k) {
+						has[k] = true
+					}
+				}
+			}
+		})
+	}
+	switch {
+	case has["#each"]:
+		return "loops"
+	case has["#image"]:
+		return "images"
+	case has["#if"]:
+		return "conditionals"
+	case has["#block"]:
+		return "blocks"
+	}
+	return "variables"
 }
 
 // ---------------------------------------------------------------------------
